@@ -17,6 +17,7 @@ package main
 import (
 	"bytes"
 	"context"
+	"encoding/binary"
 	"encoding/hex"
 	"encoding/json"
 	"errors"
@@ -261,6 +262,8 @@ type attempt struct {
 	dstVer  uint64
 	dstHash hash.Hash
 	dstKV   []kv // contents the destination hash stands for (model side)
+	// through the storage worker's decision (worker.go:383-396, 1139-1172) instead of a bare Apply
+	worker bool
 	// a start root other than the pair's (missing-start attempts)
 	otherSrc bool
 	srcHash  hash.Hash
@@ -269,6 +272,9 @@ type attempt struct {
 
 // lightMode: only the served log is applied on the second database (pathbadger log stream)
 var lightMode bool
+
+// storeMode: record the trace of calls on a pathbadger first database for PathStore.v
+var storeMode bool
 
 var keyPool = [][]byte{
 	[]byte("a"), []byte("ab"), []byte("abc"), []byte("abd"), []byte("ac"), []byte("b"), []byte("ba"),
@@ -405,7 +411,24 @@ func corruptions(r *prng.R, served []entry, old, new []kv, srcVer, dstVer uint64
 		}
 		mk("reorder", c)
 	}
+	// an insertion equal to a binding that exists and is not touched by the log (harmless)
+	for _, e := range old {
+		if !inLog[string(e.k)] {
+			pos := r.Intn(n + 1)
+			c := clone()
+			c = append(c[:pos], append([]entry{{k: e.k, v: e.v}}, c[pos:]...)...)
+			mk("insert-equal-existing", c)
+			break
+		}
+	}
 	mk("served", clone())
+	// about half of the attempts go through the storage worker's decision; afterwards the
+	// worker is asked once more (it must skip: the root is there)
+	for i := range out {
+		if r.Chance(50) {
+			out[i].worker = true
+		}
+	}
 	// Attempts that the reference considers effective corruptions go first: an accepted
 	// harmless variant stores the root, and every later Apply for it is bypassed
 	// (root_cache.go:39).  The order is only a matter of test strength; the verdicts come
@@ -419,7 +442,10 @@ func corruptions(r *prng.R, served []entry, old, new []kv, srcVer, dstVer uint64
 			good = append(good, a)
 		}
 	}
-	return append(bad, good...)
+	all := append(bad, good...)
+	again := attempt{kind: "worker-again", wl: []entry{{k: []byte("junk"), v: []byte("j")}}, dstVer: dstVer, dstHash: dstHash, dstKV: new, worker: true}
+	sum("worker-again")
+	return append(all, again)
 }
 
 // hashOf computes the root hash of given contents with an in-memory tree (nothing persisted).
@@ -440,6 +466,8 @@ func hashOf(m []kv) hash.Hash {
 }
 
 type pairResult struct {
+	store   bool // a case of the pathbadger storage stream (one trace per scenario)
+	enc     bool // a case of the stored-log encoding stream
 	pb      bool // a case of the pathbadger internal-log stream
 	coq     string
 	desc    map[string]any
@@ -544,6 +572,110 @@ func runScenario(sc Scenario) (res runResult) {
 		emit       bool
 	}
 	coqBackend := map[string]string{"badger": "Badger", "pathbadger": "PathBadger"}[sc.Backend]
+	// trace of database calls (pathbadger storage model)
+	tracing := storeMode && sc.Backend == "pathbadger"
+	var traceCalls, traceObs []string
+	hashIDs := map[hash.Hash]int{emptyHash: 0}
+	ridOf := func(r node.Root) string {
+		id, ok := hashIDs[r.Hash]
+		if !ok {
+			id = len(hashIDs)
+			hashIDs[r.Hash] = id
+		}
+		return fmt.Sprintf("(%d, %d)", r.Version, id)
+	}
+	coqStored := func(n pathbadger.VerifStoredNode) string {
+		switch {
+		case !n.Internal:
+			return fmt.Sprintf("(SLeaf %s %s)", coqout.Bytes(n.LeafKey), coqout.Bytes(n.LeafValue))
+		case n.HasLeaf:
+			return fmt.Sprintf("(SInternal (Some (%s, %s)))", coqout.Bytes(n.LeafKey), coqout.Bytes(n.LeafValue))
+		}
+		return "(SInternal None)"
+	}
+	coqRaw := func(log [][]byte) []string {
+		var raw []string
+		for _, e := range log {
+			switch {
+			case len(e) == 13 && e[0] == 0x01:
+				raw = append(raw, fmt.Sprintf("IInsert (%d, %d)", binary.BigEndian.Uint64(e[1:9]), binary.BigEndian.Uint32(e[9:13])))
+			case len(e) >= 1 && e[0] == 0x02:
+				raw = append(raw, "IDelete "+coqout.Bytes(e[1:]))
+			default:
+				raw = append(raw, "IBad")
+			}
+		}
+		return raw
+	}
+	traceCommit := func(startRoot, endRoot node.Root, seqGuess int, dup bool) {
+		if !tracing {
+			return
+		}
+		cb, err := pathbadger.VerifReadCommittedBatch(ndb1, startRoot, endRoot)
+		if err != nil {
+			panic(fmt.Errorf("hook: %w", err))
+		}
+		var nodes, removed []string
+		for _, u := range cb.Updated {
+			if u.Removed {
+				removed = append(removed, fmt.Sprintf("(%d, %d)", u.Version, u.Index))
+			} else if u.Node.Found {
+				nodes = append(nodes, fmt.Sprintf("((%d, %d), %s)", u.Version, u.Index, coqStored(u.Node)))
+			}
+		}
+		rootNode := "None"
+		if cb.RootNode.Found {
+			rootNode = "(Some " + coqStored(cb.RootNode) + ")"
+		}
+		log := coqRaw(cb.Log)
+		seq := int(cb.SeqNo)
+		if dup {
+			// the root was already stored: this commit stored nothing; what the batch carried is
+			// not observable (and not used by the model)
+			nodes, removed, log, seq = nil, nil, nil, seqGuess
+		}
+		traceCalls = append(traceCalls, fmt.Sprintf("TCommit (mkBatch %s %s %s %s %s %s)", ridOf(startRoot), ridOf(endRoot),
+			coqout.List(nodes), coqout.List(removed), rootNode, coqout.List(log)))
+		traceObs = append(traceObs, fmt.Sprintf("OSeq %d", seq))
+		res.hist[fmt.Sprintf("store:commit-seq:%d", min(seq, 3))]++
+		if cb.RawLog != nil && !dup {
+			res.pairs = append(res.pairs, pairResult{enc: true,
+				coq:  fmt.Sprintf("(%s, %s)", coqout.List(log), coqout.Bytes(cb.RawLog)),
+				desc: map[string]any{"case": sc}, nontriv: len(cb.Log) >= 2, key: hex.EncodeToString(cb.RawLog)})
+		}
+	}
+	traceFinalize := func(r node.Root) {
+		if tracing {
+			traceCalls = append(traceCalls, fmt.Sprintf("TFinalize %d %s", r.Version, ridOf(r)))
+			traceObs = append(traceObs, "ODone")
+		}
+	}
+	traceGet := func(startRoot, endRoot node.Root, status string, raw []entry, err error) {
+		if !tracing {
+			return
+		}
+		obs := "GError"
+		switch {
+		case status == "served":
+			obs = "(GServed " + coqLog(raw) + ")"
+		case errors.Is(err, nodedb.ErrWriteLogNotFound):
+			obs = "GNotFound"
+		case errors.Is(err, nodedb.ErrRootNotFound):
+			obs = "GRootNotFound"
+		case errors.Is(err, nodedb.ErrRootMustFollowOld):
+			obs = "GMustFollow"
+		}
+		res.hist["store:get:"+strings.Trim(strings.SplitN(obs, " ", 2)[0], "(")]++
+		traceCalls = append(traceCalls, fmt.Sprintf("TGet %s %s", ridOf(startRoot), ridOf(endRoot)))
+		traceObs = append(traceObs, "OGet "+obs)
+	}
+	defer func() {
+		if tracing && len(traceCalls) > 0 && !res.panicked {
+			res.pairs = append(res.pairs, pairResult{store: true,
+				coq:  fmt.Sprintf("(%s,\n  %s)", coqout.List(traceCalls), coqout.List(traceObs)),
+				desc: map[string]any{"case": sc}, nontriv: len(traceCalls) >= 6, key: strings.Join(traceCalls, ";")})
+		}
+	}()
 	query := func(startRoot, endRoot node.Root) qres {
 		it, err := b1.impl.GetDiff(ctx, &api.GetDiffRequest{StartRoot: startRoot, EndRoot: endRoot})
 		var log []entry
@@ -552,10 +684,13 @@ func runScenario(sc Scenario) (res runResult) {
 		}
 		switch {
 		case err == nil:
+			traceGet(startRoot, endRoot, "served", log, nil)
 			return qres{status: "served", log: sortLog(log), raw: log}
 		case errors.Is(err, nodedb.ErrWriteLogNotFound) || errors.Is(err, nodedb.ErrRootNotFound):
+			traceGet(startRoot, endRoot, "refused", nil, err)
 			return qres{status: "refused", err: err}
 		}
+		traceGet(startRoot, endRoot, "error", nil, err)
 		return qres{status: "error", err: err}
 	}
 	// judge one answer of the database (S) and record it for the model (K)
@@ -631,13 +766,33 @@ func runScenario(sc Scenario) (res runResult) {
 		}
 		dst := mkRoot(a.dstVer, a.dstHash)
 		hadBefore := ndb2.HasRoot(dst)
-		err := b2.impl.Apply(ctx, &api.ApplyRequest{
-			Namespace: testNs, RootType: rootType,
-			SrcRound: startRoot.Version, SrcRoot: startRoot.Hash,
-			DstRound: a.dstVer, DstRoot: a.dstHash,
-			WriteLog: toAPILog(a.wl),
-		})
+		var err error
+		skipped := false
+		wl := a.wl
+		if a.worker {
+			// port of fetchDiff (worker.go:383-396): roots the database has are not fetched;
+			// a root with the hash of the previous one gets the empty log, no peer is asked
+			if ndb2.HasRoot(dst) {
+				skipped = true
+			} else if dst.Hash.Equal(&startRoot.Hash) {
+				wl = []entry{}
+			}
+		}
+		if !skipped {
+			err = b2.impl.Apply(ctx, &api.ApplyRequest{
+				Namespace: testNs, RootType: rootType,
+				SrcRound: startRoot.Version, SrcRoot: startRoot.Hash,
+				DstRound: a.dstVer, DstRoot: a.dstHash,
+				WriteLog: toAPILog(wl),
+			})
+		}
 		cls := applyClass(err)
+		if skipped {
+			cls = "ASkipped"
+		}
+		if a.worker {
+			res.hist["worker:"+cls]++
+		}
 		has := ndb2.HasRoot(dst)
 		if err != nil && !a.otherSrc && sc.Backend2 == "badger" && strings.Contains(err.Error(), "mkvs: node not found in node db") {
 			// the second database lost a node of a finalized root (node database defect, see
@@ -648,12 +803,12 @@ func runScenario(sc Scenario) (res runResult) {
 		if cls == "AOther" {
 			res.hist["other-error:"+a.kind+": "+err.Error()]++
 		}
-		p.coqAtt = append(p.coqAtt, fmt.Sprintf("mkAttempt %s %s %s", coqRoot(startRoot.Version, srcKV), coqRoot(a.dstVer, a.dstKV), coqLog(a.wl)))
+		p.coqAtt = append(p.coqAtt, fmt.Sprintf("mkAttempt %s %s %s", coqRoot(startRoot.Version, srcKV), coqRoot(a.dstVer, a.dstKV), coqLog(a.wl))+" "+coqout.Bool(a.worker))
 		p.coqRes = append(p.coqRes, fmt.Sprintf("(%s, %s)", cls, coqout.Bool(has)))
 
 		// S: the property, judged on maps only
 		follows := a.dstVer == startRoot.Version || a.dstVer == startRoot.Version+1
-		good := !a.otherSrc && a.kind != "finalized-version" && kvEqual(applyRef(p.oldKV, a.wl), a.dstKV)
+		good := !a.otherSrc && a.kind != "finalized-version" && kvEqual(applyRef(p.oldKV, wl), a.dstKV)
 		switch {
 		case err == nil && !has:
 			viol("pair %d attempt %d (%s): Apply succeeded but the expected root is not stored", p.idx, ai, a.kind)
@@ -663,6 +818,11 @@ func runScenario(sc Scenario) (res runResult) {
 			viol("pair %d attempt %d (%s): Apply failed (%v) but the expected root appeared in the database", p.idx, ai, a.kind, err)
 		case err != nil && follows && good:
 			viol("pair %d attempt %d (%s): a log that produces exactly the announced contents was rejected: %v", p.idx, ai, a.kind, err)
+		}
+		if !skipped && err == nil && has && !hadBefore && !(a.dstVer == p.end.ver && a.dstHash.Equal(&p.end.hash)) {
+			// an accepted Apply for another root than the pair's end root (the worker's
+			// empty-log rule for an announced root with the previous hash): it is stored now
+			db2roots = append(db2roots, storedRoot{ver: a.dstVer, kvs: a.dstKV, hash: a.dstHash})
 		}
 		if err == nil && has {
 			got, rerr := readContents(ctx, ndb2, dst)
@@ -691,7 +851,13 @@ func runScenario(sc Scenario) (res runResult) {
 		atts := corruptions(r, served, p.oldKV, p.newKV, startRoot.Version, endRoot.Version, startRoot.Hash, endRoot.Hash,
 			func(k string) { res.hist["attempt:"+k]++ })
 		if lightMode {
-			atts = atts[len(atts)-1:]
+			for _, a := range atts {
+				if a.kind == "served" {
+					a.worker = false
+					atts = []attempt{a}
+					break
+				}
+			}
 		}
 		p.db2coq = db2coqNow()
 		p.fin2 = fin2
@@ -847,6 +1013,13 @@ func runScenario(sc Scenario) (res runResult) {
 					p.sOnly, q.sOnly = true, true
 				}
 			}
+			dup := p.skip
+			for _, q := range cands {
+				if q.end.hash.Equal(&end.hash) {
+					dup = true
+				}
+			}
+			traceCommit(startRoot, mkRoot(end.ver, end.hash), bi, dup)
 			cands = append(cands, p)
 		}
 		pick := len(cands) - 1
@@ -963,6 +1136,7 @@ func runScenario(sc Scenario) (res runResult) {
 		if err := ndb1.Finalize(fin); err != nil {
 			panic(fmt.Errorf("finalize db1: %w", err))
 		}
+		traceFinalize(fin[0])
 		for _, p := range cands {
 			if p.skip {
 				continue
@@ -1287,6 +1461,24 @@ func regressionScenarios() []Scenario {
 	return out
 }
 
+// encScenarios: logs whose stored form needs the longer CBOR heads (>= 24 entries, entries of
+// >= 24 and >= 256 bytes).
+func encScenarios() []Scenario {
+	var insAll, remAll []Op
+	for i := 0; i < 30; i++ {
+		k := hx([]byte(fmt.Sprintf("k%02d", i)))
+		insAll = append(insAll, Op{K: "ins", Key: k, Val: hx([]byte("v"))})
+		remAll = append(remAll, Op{K: "rem", Key: k})
+	}
+	for _, n := range []int{23, 24, 40, 255, 256, 300} {
+		k := hx(bytes.Repeat([]byte("K"), n))
+		insAll = append(insAll, Op{K: "ins", Key: k, Val: hx([]byte("w"))})
+		remAll = append(remAll, Op{K: "rem", Key: k})
+	}
+	return []Scenario{{Backend: "pathbadger", Backend2: "pathbadger", Type: "state", Seed: 7,
+		Versions: []Version{{Batches: [][]Op{insAll}}, {Batches: [][]Op{remAll}}, {Batches: [][]Op{insAll[:25]}}}}}
+}
+
 func violKind(s string) string {
 	var sb strings.Builder
 	for _, ch := range s {
@@ -1401,6 +1593,16 @@ func main() {
 	}
 	hdr := "From Verif Require Import Lib.Base WriteLog.Model.\n"
 	wb := coqout.NewWriter(*out, hdr, "run_case", "wobs_eqb", 10)
+	if *mode == "pbstore" {
+		lightMode, storeMode = true, true
+		hdr = "From Verif Require Import Lib.Base WriteLog.Model WriteLog.PathLog WriteLog.PathStore.\n"
+		wb = coqout.NewWriter(*out, hdr, "run_trace_case", "trace_eqb", 6)
+	}
+	if *mode == "pbenc" {
+		lightMode, storeMode = true, true
+		hdr = "From Verif Require Import Lib.Base WriteLog.Model WriteLog.PathLog WriteLog.LogCodec.\n"
+		wb = coqout.NewWriter(*out, hdr, "encode_log", "bytes_eqb", 60)
+	}
 	if *mode == "pblog" {
 		lightMode = true
 		hdr = "From Verif Require Import Lib.Base WriteLog.Model WriteLog.PathLog.\n"
@@ -1429,13 +1631,16 @@ func main() {
 		}
 		scs = []Scenario{sc}
 	} else {
-		if *mode != "pblog" {
+		if *mode == "sync" {
 			scs = append(scs, regressionScenarios()...)
+		}
+		if *mode == "pbenc" {
+			scs = append(scs, encScenarios()...)
 		}
 		r := prng.New(*seed)
 		for i := 0; i < *n; i++ {
 			sc := genScenario(r.Fork(), i, func(k string) { sum.Count("pattern", k) })
-			if *mode == "pblog" {
+			if *mode == "pblog" || *mode == "pbstore" || *mode == "pbenc" {
 				sc.Backend = "pathbadger"
 				for vi := range sc.Versions {
 					sc.Versions[vi].Parents = nil // pathbadger has no child roots inside a version
@@ -1463,7 +1668,7 @@ func main() {
 			}
 		}
 		for _, p := range res.pairs {
-			if p.pb != (*mode == "pblog") {
+			if p.pb != (*mode == "pblog") || p.store != (*mode == "pbstore") || p.enc != (*mode == "pbenc") {
 				continue
 			}
 			sum.Evaluations++
